@@ -3,6 +3,7 @@ package main
 import (
 	"context"
 	"fmt"
+	"os"
 	"strings"
 
 	"github.com/pentops/j5/gen/j5/list/v1/list_j5pb"
@@ -225,6 +226,46 @@ func stageKind(status string) int {
 // package (dp_schemas) are taken from the observed source API (the declaration model does not translate j5s
 // types), so that the hypotheses of C16_full can be evaluated on the package (valid_package_b).
 // extra reports declarations that add services of their own (entities, non-publish topics).
+// declFTy translates the declared type of a property (j5s source) to the model's field type. ok = false for types
+// declared in place (inline object / oneof / enum), whose schema gets a generated nested name.
+func declFTy(pkg string, pr gProp) (FTy, bool) {
+	var tr func(t gTy) (FTy, bool)
+	tr = func(t gTy) (FTy, bool) {
+		if t.Inline != nil {
+			return FTy{}, false
+		}
+		switch t.Kind {
+		case "object", "oneof", "enum":
+			rp, name := pkg, t.Ref
+			if k := strings.LastIndex(t.Ref, "."); k >= 0 {
+				rp, name = t.Ref[:k], t.Ref[k+1:]
+			}
+			return FTy{Alt: t.Kind, Pkg: rp, Name: name}, true
+		case "array", "map":
+			if t.Item == nil {
+				return FTy{}, false
+			}
+			it, ok := tr(*t.Item)
+			if !ok {
+				return FTy{}, false
+			}
+			if t.Item.Kind == "key" && (t.Item.Spec == "" || t.Item.Spec == "key") {
+				// a key without format as array item / map value reads back as string: the array annotation replaces the
+				// item's (j5.ext.v1.field).key, the map entry's value options are not printed (known: property=C04 lines
+				// "array of key without format", "options on the value field of a map entry")
+				it = FTy{Alt: "string"}
+			}
+			return FTy{Alt: t.Kind, Item: &it}, true
+		}
+		return FTy{Alt: t.Kind}, true
+	}
+	out, ok := tr(pr.Ty)
+	if ok && pr.Flatten && out.Alt == "object" {
+		out.Alt = "flatten"
+	}
+	return out, ok
+}
+
 func coqDeclPackage(p *gPackage, im *Img) (term string, extra bool) {
 	byKey := map[[2]string]Schema{}
 	for _, s := range im.Schemas {
@@ -240,7 +281,14 @@ func coqDeclPackage(p *gPackage, im *Img) (term string, extra bool) {
 		q := make([]string, len(ps))
 		for i, pr := range ps {
 			ty := "TScalar \"any\""
-			if t, ok := obs[pr.Name]; ok {
+			if t, ok := declFTy(p.Pkg, pr); ok {
+				// the type as the j5s source declares it (translated here, not read from the compiler's output)
+				ty = coqFTy(t)
+				if o, ok2 := obs[pr.Name]; ok2 && coqFTy(o) != ty && os.Getenv("VERIF_DEBUG_TYPES") != "" {
+					fmt.Fprintf(os.Stderr, "TYPEDIFF %s.%s %s: declared %+v j5s=%s observed %s\n", key[0], key[1], pr.Name, t, pr.Ty.j5s(), coqFTy(o))
+				}
+			} else if t, ok := obs[pr.Name]; ok {
+				// inline object / oneof / enum: the nested schema's generated name is taken from the observed source API
 				ty = coqFTy(t)
 			}
 			q[i] = fmt.Sprintf("{| p_json := %s; p_ty := %s |}", coqStr(pr.Name), ty)
